@@ -205,7 +205,7 @@ def report(ctx, recs, verdicts):
 
 
 def run(ctx):
-    ctx.level = "model_checking"
+    ctx.level = "exploration"   # TLA+ decides bookkeeping + bin arithmetic only (DESIGN §4 C19)
     cases, cex_span = run_model(ctx)
     scs = plan(ctx, cases["patterns"])
     # the counterexample of the pre-fix binning model, on the real code: a train whose span is cex_span ms
